@@ -1458,6 +1458,20 @@ theorem journal_revert_order_matters :
     (revertAll cur.journal.reverse cur).map (fun (s : ObjSt) => FxVerif.Model.C08Cache.lookup Slot.supply s.o.dirty) = some (some 5) := by
   decide
 
+/-- what the tie catches, on mutated statement lists (the fork lives in the read-only module cache, so these edits cannot be
+made through a patched tree): (b) `GetCommittedState` without `s.originStorage[key] = value` — the loaded value is not
+cached, unlike `Outer.read`; (c) the `Commit` loop without the `value == originStorage[key]` skip — a slot whose dirty value
+equals its origin value is written over what a nested call stored (9), where `Outer.commit` keeps the 9.  With either list
+in `Gen/C08e.lean` the `…_match_code` theorems above are FALSE, so their proofs stop compiling. -/
+example :
+    (let o : Outer := { store := fun _ => 7 }
+     (exec noCallees Slot.supply [.overrideGuard, .retIfIn .origin, .load "value", .ret "value"] [] ⟨o, []⟩).2.o.origin = [] ∧
+     (o.read Slot.supply).2.origin = [(Slot.supply, 7)]) ∧
+    (let o : Outer := { store := fun _ => 9, origin := [(Slot.supply, 7)], dirty := [(Slot.supply, 7)] }
+     (exec noCallees Slot.supply [.getMap "value" .dirty, .storeSet "value"] [] ⟨o, []⟩).2.o.store Slot.supply = 7 ∧
+     o.commit Slot.supply = 9) := by
+  decide
+
 /-- non-vacuity: a frame that reads one slot, writes another twice and a third back to its old value, after a keeper-level
 call changed the store: two entries are undone, the read slot stays cached -/
 example :
